@@ -1,6 +1,7 @@
 package h
 
 import (
+	"fmt"
 	"math/rand"
 
 	"pegsim/model"
@@ -81,7 +82,16 @@ func init() {
 	// ------------------------------------------------------------ C11
 	Register(&refineCheck{id: "C11",
 		rule: "OPR / SPR entry sets per block: exactly, fewer and more than the winner count, invalid records of every kind mixed in, duplicates, wrong-era versions; staking records by top holders, by non-holders, with a foreign signing key; factoid blocks with proper burns and near-burns; rewards compared with the upstream grader's verdict on the same entries (staking records admitted only when signed by the key of a top-100 PEG holder); distinct = distinct reward / burn events",
-		opt:  model.Options{SPRBySigner: true},
+		post: func(env *Env, w *world.World, mr *ModelRun) *Violation {
+			for h := w.Spec.First; h <= mr.L.Height; h++ {
+				if res := mr.L.Results[h]; res != nil && len(res.ForeignSPRPaid) > 0 && !res.Skipped {
+					return &Violation{Prop: "C11", Oracle: "staking-signer-is-top-holder",
+						Signature: "staking reward paid for a record whose signing key is not the key of a top-100 PEG holder (declared staker id not bound to the signing key)",
+						Detail:    fmt.Sprintf("height %d: %d winning staking records, e.g. entry %s, declare the id of a top-100 holder in ExtIDs[1] but are signed by a key holding no PEG; each was paid 180 PEG", h, len(res.ForeignSPRPaid), res.ForeignSPRPaid[0])}
+				}
+			}
+			return nil
+		},
 		profile: func(rng *rand.Rand, tier string) world.Profile {
 			p := baseProfile(rng)
 			p.Blocks = 30 + rng.Intn(50)
